@@ -234,9 +234,12 @@ template<typename T> std::string refTok(const T &t) {
     return safe([&]() { std::vector<std::string> l; for (auto &r : t.references()) l.push_back(r.id()); return listTok(l); });
 }
 
-void dumpSource(Recs &out, const nix::Source &s, const std::string &path) {
+void recSource(Recs &out, const nix::Source &s, const std::string &path) {
     std::string id, name, type, created, def; head(s, id, name, type, created, def);
     rec(out, "O", path, id, name, type, created, {{"def", def}, {"meta", metaId(s)}});
+}
+void dumpSource(Recs &out, const nix::Source &s, const std::string &path) {
+    recSource(out, s, path);
     size_t n = 0; try { n = s.sourceCount(); } catch (const std::exception &e) { out.push_back("E ? " + hexStr(path + "/sourceCount") + " !" + classify(e)); }
     for (size_t i = 0; i < n; i++) {
         try { dumpSource(out, s.getSource(i), path + "/o" + std::to_string(i)); }
@@ -255,27 +258,32 @@ std::string variantTok(const nix::Variant &v) {
     default: return "?";
     }
 }
-void dumpSection(Recs &out, const nix::Section &s, const std::string &path) {
+void recSection(Recs &out, const nix::Section &s, const std::string &path) {
     std::string id, name, type, created, def; head(s, id, name, type, created, def);
     rec(out, "S", path, id, name, type, created, {{"def", def},
         {"repo", safe([&]() { return optS(s.repository()); })},
         {"link", safe([&]() { nix::Section l = s.link(); return l ? l.id() : std::string("~"); })}});
+}
+void recProperty(Recs &out, const nix::Property &p, const std::string &pp) {
+    std::string pid = safe([&]() { return p.id(); });
+    std::string pname = safe([&]() { return hexStr(p.name()); });
+    std::string created_p = safe([&]() { return std::to_string((long long) p.createdAt()); });
+    std::string vals = safe([&]() { std::vector<std::string> l; for (auto &v : p.values()) l.push_back(variantTok(v)); return listTok(l); });
+    rec(out, "P", pp, pid, pname, "x", created_p, {
+        {"dtype", safe([&]() { return nix::data_type_to_string(p.dataType()); })},
+        {"unit", safe([&]() { return optS(p.unit()); })},
+        {"def", safe([&]() { return optS(p.definition()); })},
+        {"unc", safe([&]() { auto u = p.uncertainty(); return u ? f64Tok(*u) : std::string("~"); })},
+        {"n", safe([&]() { return std::to_string(p.valueCount()); })},
+        {"vals", vals}});
+}
+void dumpSection(Recs &out, const nix::Section &s, const std::string &path) {
+    recSection(out, s, path);
     size_t np = 0; try { np = s.propertyCount(); } catch (const std::exception &e) { out.push_back("E ? " + hexStr(path + "/propertyCount") + " !" + classify(e)); }
     for (size_t i = 0; i < np; i++) {
         std::string pp = path + "/p" + std::to_string(i);
         try {
-            nix::Property p = s.getProperty(i);
-            std::string pid = safe([&]() { return p.id(); });
-            std::string pname = safe([&]() { return hexStr(p.name()); });
-            std::string created_p = safe([&]() { return std::to_string((long long) p.createdAt()); });
-            std::string vals = safe([&]() { std::vector<std::string> l; for (auto &v : p.values()) l.push_back(variantTok(v)); return listTok(l); });
-            rec(out, "P", pp, pid, pname, "x", created_p, {
-                {"dtype", safe([&]() { return nix::data_type_to_string(p.dataType()); })},
-                {"unit", safe([&]() { return optS(p.unit()); })},
-                {"def", safe([&]() { return optS(p.definition()); })},
-                {"unc", safe([&]() { auto u = p.uncertainty(); return u ? f64Tok(*u) : std::string("~"); })},
-                {"n", safe([&]() { return std::to_string(p.valueCount()); })},
-                {"vals", vals}});
+            recProperty(out, s.getProperty(i), pp);
         } catch (const std::exception &e) { out.push_back("E P " + hexStr(pp) + " !" + classify(e)); }
     }
     size_t n = 0; try { n = s.sectionCount(); } catch (const std::exception &e) { out.push_back("E ? " + hexStr(path + "/sectionCount") + " !" + classify(e)); }
@@ -285,74 +293,93 @@ void dumpSection(Recs &out, const nix::Section &s, const std::string &path) {
     }
 }
 
-void dumpBlock(Recs &out, const nix::Block &b, const std::string &path) {
+void recArray(Recs &out, const nix::DataArray &a, const std::string &p) {
+    std::string id, name, type, created, def;
+    head(a, id, name, type, created, def);
+    std::string dims = safe([&]() { std::vector<std::string> l; for (auto &d : a.dimensions()) l.push_back(dimTok(d)); return listTok(l); });
+    rec(out, "A", p, id, name, type, created, {{"def", def},
+        {"label", safe([&]() { return optS(a.label()); })}, {"unit", safe([&]() { return optS(a.unit()); })},
+        {"dtype", safe([&]() { return nix::data_type_to_string(a.dataType()); })},
+        {"shape", safe([&]() { nix::NDSize s = a.dataExtent(); std::vector<std::string> l; for (size_t k = 0; k < s.size(); k++) l.push_back(std::to_string(s[k])); return listTok(l); })},
+        {"origin", safe([&]() { auto o = a.expansionOrigin(); return o ? f64Tok(*o) : std::string("~"); })},
+        {"poly", safe([&]() { return dlist(a.polynomCoefficients()); })},
+        {"dims", dims}, {"srcs", srcIds(a)}, {"meta", metaId(a)}, {"data", dataDigest(a)}});
+}
+void recFrame(Recs &out, const nix::DataFrame &d, const std::string &p) {
+    std::string id, name, type, created, def;
+    head(d, id, name, type, created, def);
+    std::string cols = safe([&]() { std::vector<std::string> l; for (auto &c : d.columns()) l.push_back(hexStr(c.name) + ":" + hexStr(c.unit) + ":" + nix::data_type_to_string(c.dtype)); return listTok(l); });
+    rec(out, "D", p, id, name, type, created, {{"def", def}, {"cols", cols},
+        {"rows", safe([&]() { return std::to_string(d.rows()); })}, {"srcs", srcIds(d)}, {"meta", metaId(d)}});
+}
+void recTag(Recs &out, const nix::Tag &t, const std::string &p) {
+    std::string id, name, type, created, def;
+    head(t, id, name, type, created, def);
+    rec(out, "T", p, id, name, type, created, {{"def", def},
+        {"pos", safe([&]() { return dlist(t.position()); })}, {"ext", safe([&]() { return dlist(t.extent()); })},
+        {"units", safe([&]() { return slist(t.units()); })}, {"refs", refTok(t)}, {"feats", featTok(t)},
+        {"srcs", srcIds(t)}, {"meta", metaId(t)}});
+}
+void recMTag(Recs &out, const nix::MultiTag &t, const std::string &p) {
+    std::string id, name, type, created, def;
+    head(t, id, name, type, created, def);
+    rec(out, "M", p, id, name, type, created, {{"def", def},
+        {"positions", safe([&]() { nix::DataArray a = t.positions(); return a ? a.id() : std::string("~"); })},
+        {"extents", safe([&]() { nix::DataArray a = t.extents(); return a ? a.id() : std::string("~"); })},
+        {"units", safe([&]() { return slist(t.units()); })}, {"refs", refTok(t)}, {"feats", featTok(t)},
+        {"srcs", srcIds(t)}, {"meta", metaId(t)}});
+}
+void recGroup(Recs &out, const nix::Group &g, const std::string &p) {
+    std::string id, name, type, created, def;
+    head(g, id, name, type, created, def);
+    rec(out, "G", p, id, name, type, created, {{"def", def},
+        {"das", safe([&]() { std::vector<std::string> l; for (auto &x : g.dataArrays()) l.push_back(x.id()); return listTok(l); })},
+        {"dfs", safe([&]() { std::vector<std::string> l; for (auto &x : g.dataFrames()) l.push_back(x.id()); return listTok(l); })},
+        {"tags", safe([&]() { std::vector<std::string> l; for (auto &x : g.tags()) l.push_back(x.id()); return listTok(l); })},
+        {"mtags", safe([&]() { std::vector<std::string> l; for (auto &x : g.multiTags()) l.push_back(x.id()); return listTok(l); })},
+        {"srcs", srcIds(g)}, {"meta", metaId(g)}});
+}
+void recBlock(Recs &out, const nix::Block &b, const std::string &path) {
     std::string id, name, type, created, def; head(b, id, name, type, created, def);
     rec(out, "B", path, id, name, type, created, {{"def", def}, {"meta", metaId(b)}});
+}
+void dumpBlock(Recs &out, const nix::Block &b, const std::string &path) {
+    recBlock(out, b, path);
+    std::string id, name, type, created, def;
     size_t n;
     n = 0; try { n = b.dataArrayCount(); } catch (const std::exception &e) { out.push_back("E ? " + hexStr(path + "/dataArrayCount") + " !" + classify(e)); }
     for (size_t i = 0; i < n; i++) {
         std::string p = path + "/a" + std::to_string(i);
         try {
-            nix::DataArray a = b.getDataArray(i);
-            head(a, id, name, type, created, def);
-            std::string dims = safe([&]() { std::vector<std::string> l; for (auto &d : a.dimensions()) l.push_back(dimTok(d)); return listTok(l); });
-            rec(out, "A", p, id, name, type, created, {{"def", def},
-                {"label", safe([&]() { return optS(a.label()); })}, {"unit", safe([&]() { return optS(a.unit()); })},
-                {"dtype", safe([&]() { return nix::data_type_to_string(a.dataType()); })},
-                {"shape", safe([&]() { nix::NDSize s = a.dataExtent(); std::vector<std::string> l; for (size_t k = 0; k < s.size(); k++) l.push_back(std::to_string(s[k])); return listTok(l); })},
-                {"origin", safe([&]() { auto o = a.expansionOrigin(); return o ? f64Tok(*o) : std::string("~"); })},
-                {"poly", safe([&]() { return dlist(a.polynomCoefficients()); })},
-                {"dims", dims}, {"srcs", srcIds(a)}, {"meta", metaId(a)}, {"data", dataDigest(a)}});
+            recArray(out, b.getDataArray(i), p);
         } catch (const std::exception &e) { out.push_back("E A " + hexStr(p) + " !" + classify(e)); }
     }
     n = 0; try { n = b.dataFrameCount(); } catch (const std::exception &e) { out.push_back("E ? " + hexStr(path + "/dataFrameCount") + " !" + classify(e)); }
     for (size_t i = 0; i < n; i++) {
         std::string p = path + "/d" + std::to_string(i);
         try {
-            nix::DataFrame d = b.getDataFrame(i);
-            head(d, id, name, type, created, def);
-            std::string cols = safe([&]() { std::vector<std::string> l; for (auto &c : d.columns()) l.push_back(hexStr(c.name) + ":" + hexStr(c.unit) + ":" + nix::data_type_to_string(c.dtype)); return listTok(l); });
-            rec(out, "D", p, id, name, type, created, {{"def", def}, {"cols", cols},
-                {"rows", safe([&]() { return std::to_string(d.rows()); })}, {"srcs", srcIds(d)}, {"meta", metaId(d)}});
+            recFrame(out, b.getDataFrame(i), p);
         } catch (const std::exception &e) { out.push_back("E D " + hexStr(p) + " !" + classify(e)); }
     }
     n = 0; try { n = b.tagCount(); } catch (const std::exception &e) { out.push_back("E ? " + hexStr(path + "/tagCount") + " !" + classify(e)); }
     for (size_t i = 0; i < n; i++) {
         std::string p = path + "/t" + std::to_string(i);
         try {
-            nix::Tag t = b.getTag(i);
-            head(t, id, name, type, created, def);
-            rec(out, "T", p, id, name, type, created, {{"def", def},
-                {"pos", safe([&]() { return dlist(t.position()); })}, {"ext", safe([&]() { return dlist(t.extent()); })},
-                {"units", safe([&]() { return slist(t.units()); })}, {"refs", refTok(t)}, {"feats", featTok(t)},
-                {"srcs", srcIds(t)}, {"meta", metaId(t)}});
+            recTag(out, b.getTag(i), p);
         } catch (const std::exception &e) { out.push_back("E T " + hexStr(p) + " !" + classify(e)); }
     }
     n = 0; try { n = b.multiTagCount(); } catch (const std::exception &e) { out.push_back("E ? " + hexStr(path + "/multiTagCount") + " !" + classify(e)); }
     for (size_t i = 0; i < n; i++) {
         std::string p = path + "/m" + std::to_string(i);
         try {
-            nix::MultiTag t = b.getMultiTag(i);
-            head(t, id, name, type, created, def);
-            rec(out, "M", p, id, name, type, created, {{"def", def},
-                {"positions", safe([&]() { nix::DataArray a = t.positions(); return a ? a.id() : std::string("~"); })},
-                {"extents", safe([&]() { nix::DataArray a = t.extents(); return a ? a.id() : std::string("~"); })},
-                {"units", safe([&]() { return slist(t.units()); })}, {"refs", refTok(t)}, {"feats", featTok(t)},
-                {"srcs", srcIds(t)}, {"meta", metaId(t)}});
+            recMTag(out, b.getMultiTag(i), p);
         } catch (const std::exception &e) { out.push_back("E M " + hexStr(p) + " !" + classify(e)); }
     }
     n = 0; try { n = b.groupCount(); } catch (const std::exception &e) { out.push_back("E ? " + hexStr(path + "/groupCount") + " !" + classify(e)); }
     for (size_t i = 0; i < n; i++) {
         std::string p = path + "/g" + std::to_string(i);
         try {
-            nix::Group g = b.getGroup(i);
-            head(g, id, name, type, created, def);
-            rec(out, "G", p, id, name, type, created, {{"def", def},
-                {"das", safe([&]() { std::vector<std::string> l; for (auto &x : g.dataArrays()) l.push_back(x.id()); return listTok(l); })},
-                {"dfs", safe([&]() { std::vector<std::string> l; for (auto &x : g.dataFrames()) l.push_back(x.id()); return listTok(l); })},
-                {"tags", safe([&]() { std::vector<std::string> l; for (auto &x : g.tags()) l.push_back(x.id()); return listTok(l); })},
-                {"mtags", safe([&]() { std::vector<std::string> l; for (auto &x : g.multiTags()) l.push_back(x.id()); return listTok(l); })},
-                {"srcs", srcIds(g)}, {"meta", metaId(g)}});
+            recGroup(out, b.getGroup(i), p);
         } catch (const std::exception &e) { out.push_back("E G " + hexStr(p) + " !" + classify(e)); }
     }
     n = 0; try { n = b.sourceCount(); } catch (const std::exception &e) { out.push_back("E ? " + hexStr(path + "/sourceCount") + " !" + classify(e)); }
@@ -416,6 +443,35 @@ DRV_OP(fisopen) {
 }
 DRV_OP(dump) {
     return guarded([&]() { return dumpFile(state().file); });
+}
+// hdump => ok <n> | E <kind> <slot:0|1> <id> … : the record of every entity a slot holds, taken THROUGH THE HELD HANDLE (0) and through
+// its twin (1) — whatever a handle has seen or cached, it must show what a fresh walk of the file (the `dump` just before) shows
+DRV_OP(hdump) {
+    return guarded([&]() {
+        Recs out;
+        SlotMap &sm = state().slots;
+        for (auto &kv : sm.m) {
+            if (!getenv("NIXDRV_NO_TWINS") && !sm.tried[kv.first]) { sm.tried[kv.first] = true; Ent t; if (refetch(kv.second, t)) sm.twin[kv.first] = t; }
+            for (int w = 0; w < 2; w++) {
+                const Ent *e = &kv.second;
+                if (w == 1) { auto tw = sm.twin.find(kv.first); if (tw == sm.twin.end()) continue; e = &tw->second; }
+                if (!some(*e)) continue;
+                std::string p = kv.first + ":" + std::to_string(w);
+                try {
+                    switch (e->kind) {
+                    case 'B': recBlock(out, e->b, p); break; case 'S': recSection(out, e->s, p); break; case 'O': recSource(out, e->o, p); break;
+                    case 'A': recArray(out, e->a, p); break; case 'D': recFrame(out, e->d, p); break; case 'T': recTag(out, e->t, p); break;
+                    case 'M': recMTag(out, e->m, p); break; case 'G': recGroup(out, e->g, p); break; case 'P': recProperty(out, e->p, p); break;
+                    default: break;
+                    }
+                } catch (const ProtoError &) { throw; }
+                catch (const std::exception &ex) { out.push_back(std::string("E ") + e->kind + " " + hexStr(p) + " !" + classify(ex)); }
+            }
+        }
+        std::string r = std::to_string(out.size());
+        for (auto &x : out) r += " | " + x;
+        return r;
+    });
 }
 // dumpx <TZ> : the same dump taken by a freshly forked reader process with its own time zone, file opened ReadOnly
 // (the writing session must have been closed with fdrop before)
@@ -942,6 +998,8 @@ DRV_OP(set) {
         case 'A': NAMED(h.a)
             if (f == "label") { if (none) h.a.label(nix::none); else h.a.label(unhexStr(a[3])); return std::string(); }
             if (f == "unit") { if (none) h.a.unit(nix::none); else h.a.unit(unhexStr(a[3])); return std::string(); }
+            if (f == "origin") { if (none) h.a.expansionOrigin(nix::none); else h.a.expansionOrigin(tokF64(a[3])); return std::string(); }
+            if (f == "poly") { if (none) h.a.polynomCoefficients(nix::none); else { std::vector<double> v; for (auto &x : tokList(a[3])) v.push_back(tokF64(x)); h.a.polynomCoefficients(v); } return std::string(); }
             break;
         case 'D': NAMED(h.d) break;
         case 'T': NAMED(h.t)
@@ -995,6 +1053,34 @@ DRV_OP(xcheck) {
                 out += " " + safe([&]() { return std::string(Child::hasKey(kind, par, name) ? "1" : "0"); });
                 out += " " + safe([&]() { return std::string(Child::hasKey(kind, par, id) ? "1" : "0"); });
                 out += " " + safe([&]() { return std::string(Child::hasHandle(kind, par, e) ? "1" : "0"); });
+            } catch (const ProtoError &) { throw; }
+            catch (const std::exception &ex) { out += " !" + classify(ex); }
+        }
+        return out;
+    });
+}
+// xfeat <tag or multi-tag slot> => ok <count> | i featureId dataId dataName byDataName byDataId hasDataName hasDataId | …
+// features have no name: besides their id they are addressed through their data array's name or id
+DRV_OP(xfeat) {
+    if (a.size() != 2) throw ProtoError("xfeat arity");
+    return guarded([&]() {
+        const std::string par = a[1];
+        size_t n = Child::count("R", par);
+        std::string out = std::to_string(n);
+        for (size_t i = 0; i < n; i++) {
+            out += " | " + std::to_string(i);
+            try {
+                Ent e = Child::byIdx("R", par, i);
+                if (!isSome(e)) { out += " ~"; continue; }
+                nix::DataArray da = e.r.data();
+                if (!da) { out += " " + e.r.id() + " ~"; continue; }
+                std::string did = da.id(), dname = da.name();
+                auto viaKey = [&](const std::string &k) {
+                    return safe([&]() { Ent x = Child::byKey("R", par, k); return isSome(x) ? entId(x) : std::string("~"); });
+                };
+                out += " " + e.r.id() + " " + did + " " + hexStr(dname) + " " + viaKey(dname) + " " + viaKey(did);
+                out += " " + safe([&]() { return std::string(Child::hasKey("R", par, dname) ? "1" : "0"); });
+                out += " " + safe([&]() { return std::string(Child::hasKey("R", par, did) ? "1" : "0"); });
             } catch (const ProtoError &) { throw; }
             catch (const std::exception &ex) { out += " !" + classify(ex); }
         }
